@@ -7,7 +7,7 @@ import LitexModel.Stream.NumG
 
     pipevalid | pipeready | wire | buffer_vr | syncfifo d | syncfifo_buffered d
     up r nb pw rev vtc | strideup r pw rev w… | down r nb pw rev vtc | stridedown r pw rev w…
-    gearbox i o msb | gate srd | shifter dw | delay n | cast revFrom revTo nf w… v… | bufferized_up r nb rev
+    gearbox i o msb | gate srd | shifter dw | pipeactor L | crossbar n | delay n | cast revFrom revTo nf w… v… | bufferized_up r nb rev
     mux n | demux n
   Booleans are 0/1.
 -/
@@ -34,6 +34,8 @@ def openMachine (args : List String) (hin hout : IO.FS.Stream) : Option (IO Bool
       | "gearbox", [i, o, msb] => some (serve (numGearbox i o (n2b msb)) hin hout)
       | "gate", [srd] => some (serve (numGate (n2b srd)) hin hout)
       | "shifter", [dw] => some (serve (numShifter dw) hin hout)
+      | "crossbar", [n] => some (serve (numCrossbar n) hin hout)
+      | "pipeactor", [l] => some (serve (numPipeActor l) hin hout)
       | "delay", [n] => some (serve (numDelay n) hin hout)
       | "cast", rf :: rt :: nf :: ws => some (serve (numCast (n2b rf) (n2b rt) (ws.take nf) (ws.drop nf)) hin hout)
       | "bufferized_up", [r, nb, rev] => some (serve (numBufferizedUp r nb (n2b rev)) hin hout)
